@@ -38,6 +38,9 @@ DECKS = [
       '--lattice', '10,-1:1,0:0', '--lattice', '10,-1:1,-1:0']),
     # a reflecting and a white surface on one plane, both used: the de-duplication merges them (the first flag counts)
     ('bcmerge', 'bc deck\n1 0 -1 3 imp:n=1\n2 0 2 -4 imp:n=1\n3 0 -3 : 4 imp:n=0\n\n*1 px 5\n+2 px 5\n3 px 0\n4 px 9\n\n', []),
+    # densities written with many digits (long composition names)
+    ('longdensity', 'long density deck\n1 1 -7.87400000125 -1 imp:n=1\n2 2 6.02214076199e-2 1 -2 imp:n=1\n3 0 2 imp:n=0\n\n1 so 2\n2 so 4\n\n'
+                    'm1 26056 1\nm2 1001 2 8016 1\n', []),
     # 5 LIKE n BUT with TRCL
     ('like', 'like deck\n1 1 -2.7 1 -2 imp:n=1\n2 like 1 but trcl=(2 0 0) mat=2 rho=-1.0\n3 0 -1 imp:n=1\n4 0 3 imp:n=0\n5 0 2 -3 #2 imp:n=1\n\n'
              '1 px -1\n2 px 1\n3 px 5\n\nm1 13027 1\nm2 8016 1\n', []),
